@@ -51,11 +51,11 @@ MUTANTS = [
     ("c15_count_wrong_bin", "C15", "core/result.py", "        self._relative_frequencies[readout.as_int] += 1", "        self._relative_frequencies[readout.as_int ^ (1 if len(self._readouts) > 2 else 0)] += 1"),
     ("c15_str_outputs_not_reversed", "C15", "core/result.py", "            nxt = int(nxt[::-1], 2)", "            nxt = int(nxt, 2)"),
     # ---- C16
-    ("c16_module_level_lexer", "C16", "parser/parser.py", "    lexer = JaqalLexer()\n    parser = JaqalParser(", "    global _LEXER\n    try:\n        lexer = _LEXER\n    except NameError:\n        lexer = _LEXER = JaqalLexer()\n    parser = JaqalParser("),
+    ("c16_lexer_line_numbers_carry_over", "C16", "parser/parser.py", [("    lexer = JaqalLexer()\n    parser = JaqalParser(", "    global _LEXER\n    try:\n        lexer = _LEXER\n    except NameError:\n        lexer = _LEXER = JaqalLexer()\n    parser = JaqalParser("), ("        parser.parse(lexer.tokenize(jaqal))", "        parser.parse(lexer.tokenize(jaqal, lineno=getattr(lexer, \"lineno\", 1)))")], None),
     ("c16_memo_table_class_attr", "C16", "core/circuitbuilder.py", "    def __init__(self):\n        self._table = {}\n", "    _table = {}\n\n    def __init__(self):\n        pass\n"),
     ("c16_raise_error_valueerror", "C16", "parser/slyparse.py", "        line = self._last_line\n        col = self.compute_col()\n        raise JaqalParseError(self._source, line, col, message)", "        line = self._last_line\n        col = self.compute_col()\n        raise ValueError(message)"),
-    ("c16_in_body_on_class", "C16", "parser/slyparse.py", "        self._in_body = True\n        self.top_sexpression.append(tree[0])", "        type(self)._in_body = True\n        self.top_sexpression.append(tree[0])"),
-    ("c16_swallow_failure", "C16", "core/circuitbuilder.py", "            obj = self.build(expr, context, gate_context)\n            if isinstance(obj, Register) or isinstance(obj, NamedQubit):", "            try:\n                obj = self.build(expr, context, gate_context)\n            except JaqalError:\n                if len(statements) < 3:\n                    raise\n                continue\n            if isinstance(obj, Register) or isinstance(obj, NamedQubit):"),
+    ("c16_in_body_on_class", "C16", "parser/slyparse.py", [("        self._in_body = False\n", "        pass\n"), ("    tokens = JaqalLexer.tokens\n", "    tokens = JaqalLexer.tokens\n    _in_body = False\n"), ("        self._in_body = True\n        self.top_sexpression.append(tree[0])", "        type(self)._in_body = True\n        self.top_sexpression.append(tree[0])")], None),
+    ("c16_source_text_kept_from_first_parse", "C16", "parser/slyparse.py", "        self._source_text = source_text\n", "        if getattr(JaqalParser, \"_first_text\", None) is None:\n            JaqalParser._first_text = source_text\n        self._source_text = JaqalParser._first_text\n"),
     ("c16_eof_attributeerror", "C16", "parser/slyparse.py", "            msg = \"Unexpected end of input\"\n", "            msg = \"Unexpected end of input\" + token.value\n"),
     ("c16_keep_failed_module", "C16", "_import.py", "        sys.modules.pop(mod_name, None)\n", "        pass\n"),
     ("c16_no_importlib_util", "C16", "_import.py", "import sys, importlib, importlib.util, os", "import sys, importlib, os"),
@@ -97,11 +97,14 @@ def mutants(argv):
         try:
             path = os.path.join(d, "src", "jaqalpaq", rel)
             s = open(path).read()
-            if old not in s:
+            edits = old if isinstance(old, list) else [(old, new)]
+            if any(a not in s for a, _ in edits):
                 results.append((name, prop, "NOT-APPLICABLE (pattern missing)"))
                 print(results[-1], flush=True)
                 continue
-            open(path, "w").write(s.replace(old, new, 1))
+            for a, b in edits:
+                s = s.replace(a, b, 1)
+            open(path, "w").write(s)
             # the mutant must still import
             imp = subprocess.run(["/venv/bin/python", "-B", "-c", "import sys; sys.path.insert(0, %r); import jaqalpaq.parser, jaqalpaq.run, jaqalpaq.core.result" % os.path.join(d, "src")], capture_output=True, text=True)
             if imp.returncode != 0:
